@@ -10,6 +10,7 @@ func TestVerifReplay(t *testing.T) {
 	vrt.RunReplay(t, map[string]func(){
 		"VerifC11EvalQuick":        VerifC11EvalQuick,
 		"VerifC11EvalThorough":     VerifC11EvalThorough,
+		"VerifC11EvalDeep":         VerifC11EvalDeep,
 		"VerifC11MonotoneQuick":    VerifC11MonotoneQuick,
 		"VerifC11MonotoneThorough": VerifC11MonotoneThorough,
 	})
